@@ -10,8 +10,10 @@ import (
 	"encoding/json"
 	"fmt"
 	"os"
+	"runtime"
 	"sort"
 	"strings"
+	"sync"
 
 	"verifharness/absx"
 )
@@ -53,6 +55,8 @@ func (g *Graph) id(st any) int {
 }
 
 // Load parses TLC's output: lines are TLA+ string literals `"EDGE {json}"` / `"META {json}"`.
+// Lines are decoded in parallel; states are interned by the raw JSON text TLC printed for them
+// (identical for identical states), so each distinct state is decoded once.
 func Load(path string) (*Graph, error) {
 	fh, err := os.Open(path)
 	if err != nil {
@@ -60,39 +64,119 @@ func Load(path string) (*Graph, error) {
 	}
 	defer fh.Close()
 	g := &Graph{index: map[string]int{}, Out: map[int][]*Edge{}}
-	sc := bufio.NewScanner(fh)
-	sc.Buffer(make([]byte, 1<<20), 1<<28)
-	for sc.Scan() {
-		line := sc.Text()
-		if !strings.HasPrefix(line, `"EDGE `) && !strings.HasPrefix(line, `"META `) {
+	type rawEdge struct {
+		from, to string
+		ed       *Edge
+		meta     M
+		err      error
+	}
+	lines := make(chan string, 1024)
+	outc := make(chan rawEdge, 1024)
+	var wg sync.WaitGroup
+	nw := runtime.NumCPU()
+	if nw > 12 {
+		nw = 12
+	}
+	for w := 0; w < nw; w++ {
+		wg.Add(1)
+		go func() {
+			defer wg.Done()
+			for line := range lines {
+				var s string
+				if err := json.Unmarshal([]byte(line), &s); err != nil {
+					outc <- rawEdge{err: fmt.Errorf("bad line: %w", err)}
+					continue
+				}
+				if s[:4] == "META" {
+					var obj map[string]any
+					if err := json.Unmarshal([]byte(s[5:]), &obj); err != nil {
+						outc <- rawEdge{err: err}
+						continue
+					}
+					outc <- rawEdge{meta: absx.Map(absx.Norm(obj))}
+					continue
+				}
+				var obj map[string]json.RawMessage
+				if err := json.Unmarshal([]byte(s[5:]), &obj); err != nil {
+					outc <- rawEdge{err: fmt.Errorf("bad json: %w", err)}
+					continue
+				}
+				var e, resp, failed any
+				var ok bool
+				_ = json.Unmarshal(obj["e"], &e)
+				_ = json.Unmarshal(obj["resp"], &resp)
+				_ = json.Unmarshal(obj["failed"], &failed)
+				_ = json.Unmarshal(obj["ok"], &ok)
+				ed := &Edge{E: absx.Map(absx.Norm(e)), OK: ok, Resp: absx.Map(absx.Norm(resp))}
+				for _, f := range absx.List(absx.Norm(failed)) {
+					ed.Failed = append(ed.Failed, absx.Str(f))
+				}
+				sort.Strings(ed.Failed)
+				re := rawEdge{from: string(obj["from"]), ed: ed}
+				if ok {
+					re.to = string(obj["to"])
+				}
+				outc <- re
+			}
+		}()
+	}
+	var scanErr error
+	go func() {
+		sc := bufio.NewScanner(fh)
+		sc.Buffer(make([]byte, 1<<20), 1<<28)
+		for sc.Scan() {
+			line := sc.Text()
+			if strings.HasPrefix(line, `"EDGE `) || strings.HasPrefix(line, `"META `) {
+				lines <- line
+			}
+		}
+		scanErr = sc.Err()
+		close(lines)
+		wg.Wait()
+		close(outc)
+	}()
+	rawIndex := map[string]int{}
+	intern := func(raw string) int {
+		if i, ok := rawIndex[raw]; ok {
+			return i
+		}
+		var v any
+		if err := json.Unmarshal([]byte(raw), &v); err != nil {
+			panic(err)
+		}
+		i := g.id(v)
+		rawIndex[raw] = i
+		return i
+	}
+	var all []rawEdge
+	for re := range outc {
+		if re.err != nil {
+			return nil, re.err
+		}
+		if re.meta != nil {
+			g.Meta = re.meta
 			continue
 		}
-		var s string
-		if err := json.Unmarshal([]byte(line), &s); err != nil {
-			return nil, fmt.Errorf("bad line: %w", err)
+		all = append(all, re)
+	}
+	// deterministic edge order regardless of worker scheduling
+	sort.Slice(all, func(i, j int) bool {
+		if all[i].from != all[j].from {
+			return all[i].from < all[j].from
 		}
-		var obj map[string]any
-		if err := json.Unmarshal([]byte(s[5:]), &obj); err != nil {
-			return nil, fmt.Errorf("bad json: %w", err)
-		}
-		if s[:4] == "META" {
-			g.Meta = absx.Map(absx.Norm(obj))
-			continue
-		}
-		ed := &Edge{From: g.id(obj["from"]), E: absx.Map(absx.Norm(obj["e"])), OK: absx.Bool(obj["ok"]), Resp: absx.Map(absx.Norm(obj["resp"]))}
-		for _, f := range absx.List(absx.Norm(obj["failed"])) {
-			ed.Failed = append(ed.Failed, absx.Str(f))
-		}
-		sort.Strings(ed.Failed)
-		if ed.OK {
-			ed.To = g.id(obj["to"])
+		return absx.Canon(all[i].ed.E) < absx.Canon(all[j].ed.E)
+	})
+	for _, re := range all {
+		re.ed.From = intern(re.from)
+		if re.ed.OK {
+			re.ed.To = intern(re.to)
 		} else {
-			ed.To = ed.From
+			re.ed.To = re.ed.From
 		}
-		g.Out[ed.From] = append(g.Out[ed.From], ed)
+		g.Out[re.ed.From] = append(g.Out[re.ed.From], re.ed)
 		g.NEdges++
 	}
-	return g, sc.Err()
+	return g, scanErr
 }
 
 type Mismatch struct {
@@ -104,6 +188,7 @@ type Mismatch struct {
 	ImplErr string   `json:"impl_err,omitempty"`
 	Fields  []string `json:"fields,omitempty"`
 	Detail  M        `json:"detail,omitempty"`
+	SpecResp M       `json:"spec_resp,omitempty"`
 	Path    []M      `json:"path"` // events from the initial state to the source state of the edge
 }
 
@@ -118,11 +203,17 @@ type Report struct {
 	Mismatches   []Mismatch `json:"mismatches"`
 	NMismatch    int        `json:"n_mismatch"`
 	Samples      []M        `json:"samples"`
+	Findings     map[string]int `json:"findings"`        // signature -> number of conforming edges on which the implementation reports it
+	FindingSample map[string]M  `json:"finding_samples"`
 }
 
-// Walk replays every edge reachable from the state `init` projects to.
-func Walk(g *Graph, init Impl, maxKeep int) *Report {
-	rep := &Report{States: len(g.States), Edges: g.NEdges, ByType: map[string]int{}}
+// Walk replays every edge reachable from the state a fresh implementation projects to.  The
+// breadth-first spanning tree is cut at a depth with enough nodes; each worker owns an independent
+// implementation instance (nothing is shared between workers), re-executes the tree path to a cut
+// node on a branch of its own root and then walks that node's subtree.
+func Walk(g *Graph, newImpl func() Impl, maxKeep int) *Report {
+	rep := &Report{States: len(g.States), Edges: g.NEdges, ByType: map[string]int{}, Mismatches: []Mismatch{}, Samples: []M{}, Findings: map[string]int{}, FindingSample: map[string]M{}}
+	init := newImpl()
 	s0 := init.Project()
 	root, ok := g.index[absx.Canon(s0)]
 	if !ok {
@@ -136,8 +227,11 @@ func Walk(g *Graph, init Impl, maxKeep int) *Report {
 	}
 	// breadth-first spanning tree
 	parent := map[int]*Edge{root: nil}
+	depth := map[int]int{root: 0}
 	queue := []int{root}
 	children := map[int][]*Edge{}
+	byDepth := map[int][]int{0: {root}}
+	maxDepth := 0
 	for len(queue) > 0 {
 		n := queue[0]
 		queue = queue[1:]
@@ -147,6 +241,11 @@ func Walk(g *Graph, init Impl, maxKeep int) *Report {
 			}
 			if _, seen := parent[ed.To]; !seen {
 				parent[ed.To] = ed
+				depth[ed.To] = depth[n] + 1
+				if depth[ed.To] > maxDepth {
+					maxDepth = depth[ed.To]
+				}
+				byDepth[depth[ed.To]] = append(byDepth[depth[ed.To]], ed.To)
 				children[n] = append(children[n], ed)
 				queue = append(queue, ed.To)
 			}
@@ -160,14 +259,27 @@ func Walk(g *Graph, init Impl, maxKeep int) *Report {
 		}
 		return p
 	}
+	nw := runtime.NumCPU()
+	if nw > 12 {
+		nw = 12
+	}
+	cut := 0
+	for cut < maxDepth && len(byDepth[cut]) < 6*nw {
+		cut++
+	}
+	var mu sync.Mutex
 	add := func(m Mismatch) {
+		mu.Lock()
+		defer mu.Unlock()
 		rep.NMismatch++
 		if len(rep.Mismatches) < maxKeep {
 			rep.Mismatches = append(rep.Mismatches, m)
 		}
 	}
-	var visit func(n int, im Impl)
-	visit = func(n int, im Impl) {
+	// visit executes every edge leaving n; it descends along tree edges while the child is above
+	// the cut (top=true) or unconditionally (top=false).
+	var visit func(n int, im Impl, top bool)
+	visit = func(n int, im Impl, top bool) {
 		isChild := map[*Edge]bool{}
 		for _, c := range children[n] {
 			isChild[c] = true
@@ -175,6 +287,7 @@ func Walk(g *Graph, init Impl, maxKeep int) *Report {
 		for _, ed := range g.Out[n] {
 			f := im.Fork()
 			ok, resp, errStr := f.Exec(ed.E)
+			mu.Lock()
 			rep.Replayed++
 			rep.ByType[absx.Str(ed.E["type"])]++
 			if ed.OK {
@@ -182,6 +295,19 @@ func Walk(g *Graph, init Impl, maxKeep int) *Report {
 			}
 			if len(rep.Samples) < 3 && ed.OK && rep.Replayed%97 == 1 {
 				rep.Samples = append(rep.Samples, M{"event": ed.E, "spec_ok": ed.OK, "impl_ok": ok, "resp": resp})
+			}
+			mu.Unlock()
+			if ok {
+				if fl, has := resp["finding"]; has {
+					for _, sig := range absx.List(fl) {
+						mu.Lock()
+						rep.Findings[absx.Str(sig)]++
+						if _, seen := rep.FindingSample[absx.Str(sig)]; !seen {
+							rep.FindingSample[absx.Str(sig)] = M{"event": ed.E, "path": pathTo(n), "resp": resp}
+						}
+						mu.Unlock()
+					}
+				}
 			}
 			good := true
 			if ok != ed.OK {
@@ -199,20 +325,79 @@ func Walk(g *Graph, init Impl, maxKeep int) *Report {
 							det[p] = M{"spec": dig(g.States[ed.To], p), "impl": dig(st, p)}
 						}
 					}
-					add(Mismatch{Kind: "state", Event: ed.E, SpecOK: true, ImplOK: true, Fields: d, Detail: det, Path: pathTo(n)})
+					add(Mismatch{Kind: "state", Event: ed.E, SpecOK: true, ImplOK: true, Fields: d, Detail: det, SpecResp: ed.Resp, Path: pathTo(n)})
 					good = false
 				}
 			}
-			if isChild[ed] {
+			if isChild[ed] && (!top || depth[ed.To] < cut) {
 				if good {
-					visit(ed.To, f)
+					visit(ed.To, f, top)
 				} else {
+					mu.Lock()
 					rep.Skipped++
+					mu.Unlock()
 				}
 			}
 		}
 	}
-	visit(root, init)
+	type unit struct {
+		node int
+		top  bool
+	}
+	units := make(chan unit, len(byDepth[cut])+1)
+	if cut > 0 {
+		units <- unit{root, true}
+		for _, n := range byDepth[cut] {
+			units <- unit{n, false}
+		}
+	} else {
+		units <- unit{root, false}
+	}
+	close(units)
+	var wg sync.WaitGroup
+	for w := 0; w < nw; w++ {
+		wg.Add(1)
+		go func(w int) {
+			defer wg.Done()
+			var base Impl
+			for u := range units {
+				if base == nil {
+					if w == 0 {
+						base = init
+					} else {
+						base = newImpl()
+					}
+				}
+				im := base.Fork()
+				okPath := true
+				if !u.top {
+					// re-execute the tree path to the cut node on this worker's own instance
+					var path []*Edge
+					for e := parent[u.node]; e != nil; e = parent[e.From] {
+						path = append([]*Edge{e}, path...)
+					}
+					for _, e := range path {
+						if ok, _, _ := im.Exec(e.E); !ok {
+							okPath = false // already reported by the unit that owns that edge
+							break
+						}
+					}
+					if okPath && absx.Canon(im.Project()) != absx.Canon(g.States[u.node]) {
+						okPath = false
+					}
+				}
+				if !okPath {
+					mu.Lock()
+					rep.Skipped++
+					mu.Unlock()
+					continue
+				}
+				visit(u.node, im, u.top)
+			}
+		}(w)
+	}
+	wg.Wait()
+	sort.SliceStable(rep.Mismatches, func(i, j int) bool { return len(rep.Mismatches[i].Path) < len(rep.Mismatches[j].Path) })
 	return rep
 }
 
